@@ -62,14 +62,14 @@ func (ob *Obligation) smtOpt(withModel bool, relaxed bool) string {
 	sb.WriteString(fc.typeFacts())
 	// assumed axioms: only those that share an uninterpreted spec symbol with this query
 	var body strings.Builder
-	for _, a := range fc.axioms {
-		body.WriteString(a.S)
-	}
 	for _, p := range ob.PC {
 		body.WriteString(p.S)
 	}
 	body.WriteString(ob.Goal.S)
 	bodyS := body.String()
+	for _, a := range relevantAxioms(fc.axioms, bodyS) {
+		bodyS += a.S
+	}
 	for _, a := range fc.globalAxioms {
 		if relaxed && hasQuant(a.S) {
 			continue
@@ -78,7 +78,7 @@ func (ob *Obligation) smtOpt(withModel bool, relaxed bool) string {
 			sb.WriteString("(assert " + a.S + ")\n")
 		}
 	}
-	for _, a := range fc.axioms {
+	for _, a := range relevantAxioms(fc.axioms, bodyS) {
 		if relaxed && hasQuant(a.S) {
 			continue
 		}
@@ -194,8 +194,12 @@ func (s *Solver) solve(ob *Obligation) {
 		}
 		return
 	}
-	// first: z3-new with the short limit
-	st, out, secs := runSolver("z3-new", s.quickS, file)
+	// first: z3-new with the short limit (quantified goals skip this stage: another solver is
+	// usually the one that decides them, and waiting for z3 to give up only adds latency)
+	st, out, secs := "skipped", "", 0.0
+	if !hasQuant(text) {
+		st, out, secs = runSolver("z3-new", s.quickS, file)
+	}
 	total += secs
 	res.Outputs["z3-new"] = trimOut(out)
 	if st == want {
@@ -220,7 +224,7 @@ func (s *Solver) solve(ob *Obligation) {
 	}
 	racers := []string{"cvc5", "z3"}
 	if hasQuant(text) {
-		racers = append(racers, "cvc5-enum")
+		racers = []string{"z3-new", "cvc5-enum", "cvc5", "z3"}
 	}
 	rc := make(chan r, len(racers))
 	rctx, rcancel := context.WithCancel(context.Background())
@@ -417,4 +421,54 @@ func (u *Universe) closeTypeIDs() {
 		}
 		changed = len(u.typeByID) != n
 	}
+}
+
+// relevantAxioms: the function-wide axioms an obligation needs. A ground unfolding of a
+// recursive spec function, (= (sf_f args) body), is needed only if the application it defines
+// occurs in the obligation (or in the body of an unfolding that is itself needed); all other
+// axioms (small facts about boxing, encodings, type kinds) are always included.
+func relevantAxioms(axioms []*Term, text string) []*Term {
+	type def struct {
+		t    *Term
+		head string
+	}
+	var defs []def
+	var out []*Term
+	for _, a := range axioms {
+		if strings.HasPrefix(a.S, "(= (sf_") {
+			// head: the first argument of =
+			depth := 0
+			end := -1
+			for i := 3; i < len(a.S); i++ {
+				if a.S[i] == '(' {
+					depth++
+				} else if a.S[i] == ')' {
+					depth--
+					if depth == 0 {
+						end = i + 1
+						break
+					}
+				}
+			}
+			if end > 0 {
+				defs = append(defs, def{a, a.S[3:end]})
+				continue
+			}
+		}
+		out = append(out, a)
+		text += a.S
+	}
+	used := make([]bool, len(defs))
+	for changed := true; changed; {
+		changed = false
+		for i, d := range defs {
+			if !used[i] && strings.Contains(text, d.head) {
+				used[i] = true
+				changed = true
+				out = append(out, d.t)
+				text += d.t.S
+			}
+		}
+	}
+	return out
 }
